@@ -34,7 +34,11 @@ func (c c06Case) String() string {
 	return fmt.Sprintf("protocol=%s resolver=%s history=[%s]", c.Protocol, c.Resolver, strings.Join(c.Ops, " "))
 }
 
-var c06Alphabet = []string{"push", "pull", "pushpull", "editA", "editP", "delA", "delP", "editPbad", "acceptA"}
+var c06Alphabet = []string{"push", "pull", "pushpull", "editA", "editP", "delA", "delP"}
+
+// histories about a refused edit are enumerated separately (every replication run that meets a refused revision
+// takes seconds): editPbad first, then up to D-1 steps from this alphabet
+var c06RefusedAlphabet = []string{"pull", "push", "pushpull", "acceptA", "editP"}
 
 // the active peer's sync function refuses documents marked bad until acceptA replaces it
 const c06RejectingSyncFn = `function(doc) { channel(doc.channels); if (doc.bad) { throw({forbidden: "bad"}); } }`
@@ -245,6 +249,10 @@ func c06History(t testing.TB, r *vreport.Report, c c06Case, peers TestISGRPeers,
 		p := c06Read(w.passive, docID)
 		return !accepts && strings.Contains(p.Body, `"bad":true`)
 	}
+	if refused() {
+		r.Add("histories_ending_with_a_refused_document", 1)
+		return true
+	}
 	if perDirectionFirst {
 		// catch up with the per-direction replications first: they resume from the checkpoints they persisted during the
 		// history, so a checkpoint that ran ahead of a refused revision shows as a document that never arrives
@@ -365,7 +373,7 @@ func c06Peers(t *testing.T, protocol string) TestISGRPeers {
 func TestVerifC06(t *testing.T) {
 	r := vreport.Begin("C06")
 	defer r.Finish(t)
-	r.Rule("histories over {push, pull, pushpull (one-shot, run to completion, one replication id per direction so later runs restart from the checkpoint), editA, editP, delA, delP, editPbad (an edit the active peer's sync function refuses), acceptA (the active peer starts accepting)} (edit on a tombstone = resurrection) on one document, depth <= D, x protocol {rev-tree v3, version-vector v4} x resolver; histories whose delete has no live document are pruned; a pair of peers serves up to 40 histories, each on its own document, so most histories also start from non-initial replication checkpoints; non-trivial = distinct valid (history, protocol, resolver)")
+	r.Rule("histories over {push, pull, pushpull (one-shot, run to completion, one replication id per direction so later runs restart from the checkpoint), editA, editP, delA, delP}; plus histories that start with editPbad (an edit the active peer's sync function refuses) followed by up to D-1 of {pull, push, pushpull, acceptA (the active peer starts accepting), editP} (edit on a tombstone = resurrection) on one document, depth <= D, x protocol {rev-tree v3, version-vector v4} x resolver; histories whose delete has no live document are pruned; a pair of peers serves up to 40 histories, each on its own document, so most histories also start from non-initial replication checkpoints; non-trivial = distinct valid (history, protocol, resolver)")
 	r.Assume("local writes interleave with replication at operation granularity only: scheduling inside one replication run (BLIP goroutines, sockets; the push and the pull half of a push-and-pull run) is left to the Go runtime, so intra-run races are met as they happen, not enumerated; the replicating-client (Couchbase Lite) side of the statement is represented by the passive peer only")
 	var rc c06Case
 	if r.Replaying(&rc) {
@@ -378,7 +386,7 @@ func TestVerifC06(t *testing.T) {
 	resolvers := []string{"default"}
 	if r.Thorough() {
 		D = 4
-		resolvers = []string{"default", "localWins", "remoteWins"}
+		// (localWins / remoteWins are refused by this Community Edition build: "only supported in enterprise edition")
 	}
 	r.Note("max_depth", D)
 	// enumerate this shard's cases
@@ -419,6 +427,31 @@ func TestVerifC06(t *testing.T) {
 		}
 	}
 	rec(nil)
+	var rec2 func(h []string)
+	rec2 = func(h []string) {
+		if len(h) > 1 {
+			for _, proto := range []string{"v3", "v4"} {
+				for _, res := range resolvers {
+					idx++
+					if !r.Mine(idx) {
+						continue
+					}
+					k := proto + "/" + res
+					if _, ok := groups[k]; !ok {
+						order = append(order, k)
+					}
+					groups[k] = append(groups[k], c06Case{Ops: append([]string{}, h...), Protocol: proto, Resolver: res})
+				}
+			}
+		}
+		if len(h) == D {
+			return
+		}
+		for _, op := range c06RefusedAlphabet {
+			rec2(append(h, op))
+		}
+	}
+	rec2([]string{"editPbad"})
 	n := 0
 	for _, k := range order {
 		cases := groups[k]
